@@ -9,27 +9,36 @@ pub fn chunk_bytes(id: usize, size: usize) -> Vec<u8> {
     (0..size).map(|j| ((id * 37 + j * 11 + 5) % 256) as u8).collect()
 }
 
-/// 64-byte "hash" of an abstract chunk id (distinct in every prefix of >= 2 bytes for id < 65536)
-pub fn id_hash(id: usize) -> HashSum {
-    let mut v = vec![0u8; 64];
-    v[0] = (id & 0xff) as u8;
-    v[1] = (id >> 8) as u8;
-    for (j, b) in v.iter_mut().enumerate().skip(2) {
-        *b = ((id * 131 + j * 7) % 251) as u8;
-    }
-    HashSum::from(v)
+/// The verified chunk (real Blake2 hash) of an abstract chunk id.
+pub fn verified(id: usize, size: usize) -> bitar::VerifiedChunk {
+    bitar::Chunk::from(chunk_bytes(id, size)).verify()
+}
+
+pub fn id_hash_sized(id: usize, size: usize) -> HashSum {
+    verified(id, size).hash().clone()
+}
+
+static IDS: std::sync::OnceLock<std::sync::Mutex<std::collections::HashMap<Vec<u8>, usize>>> = std::sync::OnceLock::new();
+
+fn ids() -> &'static std::sync::Mutex<std::collections::HashMap<Vec<u8>, usize>> {
+    IDS.get_or_init(Default::default)
+}
+
+fn remember(id: usize, size: usize) -> HashSum {
+    let hs = id_hash_sized(id, size);
+    ids().lock().unwrap().insert(hs.slice().to_vec(), id);
+    hs
 }
 
 pub fn hash_id(hs: &HashSum) -> usize {
-    let s = hs.slice();
-    s[0] as usize | (s[1] as usize) << 8
+    *ids().lock().unwrap().get(hs.slice()).unwrap_or(&usize::MAX)
 }
 
 pub fn tiling_index(sizes: &[usize], ids: &[usize], hash_len: usize) -> ChunkIndex {
     let mut ix = ChunkIndex::new_empty(hash_len);
     let mut off = 0u64;
     for &id in ids {
-        ix.add_chunk(id_hash(id), sizes[id], &[off]);
+        ix.add_chunk(remember(id, sizes[id]), sizes[id], &[off]);
         off += sizes[id] as u64;
     }
     ix
@@ -126,42 +135,52 @@ pub async fn one(sizes: &[usize], o: &[usize], n: &[usize], st: &mut Stats, exec
     let oix = tiling_index(sizes, o, hash_len);
     let nix = tiling_index(sizes, n, hash_len);
     let o_tiling: &[usize] = o;
+    let (sizes_v, n_v) = (sizes.to_vec(), n.to_vec());
     let res = tokio::spawn(async move {
         let file = MemFile::new(prior);
         let mut out = CloneOutput::new(file, nix);
         let r = out.reorder_in_place(oix).await;
         let mut left: Vec<usize> = out.chunks().keys().map(hash_id).collect();
         left.sort();
-        (r.map_err(|e| e.to_string()), left, out.into_inner())
+        // then feed every source chunk in source order (what seeds and the archive deliver):
+        // chunks no longer wanted are ignored by `feed`
+        let mut fed_err = None;
+        if r.is_ok() {
+            let mut seen = std::collections::HashSet::new();
+            for &id in &n_v {
+                if seen.insert(id) {
+                    if let Err(e) = out.feed(&verified(id, sizes_v[id])).await {
+                        fed_err = Some(e.to_string());
+                        break;
+                    }
+                }
+            }
+        }
+        (r.map_err(|e| e.to_string()), left, fed_err, out.into_inner())
     })
     .await;
     match res {
-        Ok((Ok(ret), left, file)) => {
+        Ok((Ok(ret), left, fed_err, file)) => {
             h::emit_case(
                 &req_e,
                 &format!("ret={} left={} file={} log={}", ret, dots(&left), h::digest(&file.data), show_io(&file.log)),
             );
-            // property oracle: write what is left (what seeds / the archive would deliver) at its
-            // target offsets, resize, compare with the target
-            let mut f = file.data.clone();
-            let mut off = 0usize;
-            for &id in n {
-                if left.contains(&id) {
-                    let b = chunk_bytes(id, sizes[id]);
-                    if f.len() < off + b.len() {
-                        f.resize(off + b.len(), 0);
-                    }
-                    f[off..off + b.len()].copy_from_slice(&b);
-                }
-                off += sizes[id];
+            if let Some(e) = fed_err {
+                h::emit_oracle_fail("feed-io-error", &format!("{} :: {}", req_e, e));
             }
+            // C06 oracle: what is left to fetch after the reorder is absent from the prior output
+            if left.iter().any(|id| o_tiling.contains(id)) {
+                h::emit_oracle_fail("chunk-present-in-prior-output-still-to-be-fetched", &req_e);
+            }
+            // C03 oracle: reorder + feeds + resize = the source
+            let mut f = file.data.clone();
             f.resize(target.len(), 0);
             if f != target {
                 st.wrong_output += 1;
                 h::emit_oracle_fail("in-place-result-differs-from-source", &req_e);
             }
-            // C13 oracle on the reorder writes: each write is a source chunk at one of its offsets,
-            // no location twice, none in place, none beyond the source
+            // C13 oracle on ALL writes (reorder and feeds): each write is a source chunk at one of its
+            // offsets, no location twice, none in place, none beyond the source
             let mut written: std::collections::HashSet<u64> = Default::default();
             for op in &file.log {
                 if let IoOp::Write(o, b) = op {
@@ -193,7 +212,7 @@ pub async fn one(sizes: &[usize], o: &[usize], n: &[usize], st: &mut Stats, exec
                 }
             }
         }
-        Ok((Err(e), _, _)) => {
+        Ok((Err(e), _, _, _)) => {
             h::emit_case(&req_e, "io-error");
             h::emit_oracle_fail("in-place-io-error", &format!("{} :: {}", req_e, e));
         }
